@@ -137,7 +137,7 @@ theorem pairExec_swap_native_out {w w' : World} {s p d amt : Nat} {funds : List 
   | none => simp [hP] at h
   | some P =>
     simp only [hP, bind_ok_iff] at h
-    obtain ⟨w0, _, ⟨w1, o1⟩, _, hret⟩ := h
+    obtain ⟨w0, _, _, _, ⟨w1, o1⟩, _, hret⟩ := h
     simp only [pure_ok_iff, Prod.mk.injEq] at hret
     exact ⟨o1, hret.2.symm⟩
 
